@@ -190,6 +190,16 @@ theorem names_match_stats (ops : FOps R) (fr tfr out : Frame R) (cs : List (Stri
 
 example : (wTrain.numNames ++ wFitted.newColumns).Nodup ∧ wFitted.statsKeys = ["n", "c_0", "c_1"] := by decide
 
+/-- The distinctness hypothesis of `names_match_stats` is needed: when a numerical column carries the
+    name of a generated column (`"c_0"` next to the categorical column `"c"`) the output has two
+    columns of that name but the transformed statistics one key.  (The real code behaves the same;
+    such a name clash is outside the frames the property quantifies over.) -/
+theorem name_clash_breaks_bijection :
+    let st := fit fracOps wCollide [("c", [2, 1])] ["c_0", "c", "y"]
+    (st.map fun | .fitted f => f.statsKeys | _ => []) = some ["c_0"] ∧
+      ((st.bind fun st => transform fracOps st wCollide).map (·.numNames)) = some ["c_0", "c_0"] := by
+  decide
+
 /-! ### raising -/
 
 /-- using the transform before fitting raises, whatever the frame -/
